@@ -451,9 +451,24 @@ func flushLog() {
 			case v := <-logQueue:
 				v.writer.Write(v.value)
 			case <-syncDone.Done():
+				drainLogQueue()
 				asyncCancel()
 				return
 			}
+		}
+	}
+}
+
+// drainLogQueue writes the entries that are already queued when a flush is
+// requested: the select above may pick the flush request while the queue is
+// not empty.
+func drainLogQueue() {
+	for {
+		select {
+		case v := <-logQueue:
+			v.writer.Write(v.value)
+		default:
+			return
 		}
 	}
 }
